@@ -1298,3 +1298,23 @@ Example ex_run_is_machine :
   List.concat (snd (mrun ex_cfg minit (flat_map sop_block [(0, SLog ex_ev); (1, SInstallScoped); (0, SLog ex_ev)]))) =
   List.concat (snd (run ex_cfg false [ex_ev; OpInstall; ex_ev])).
 Proof. reflexivity. Qed.
+
+(** * Spans entered by polling / dropping an `Instrumented` future, or by `in_scope` *)
+Lemma source_entries : gen_instrumented_poll_enters = true /\ gen_instrumented_drop_enters = true.
+Proof. split; reflexivity. Qed.
+Lemma poll_ops_spec : forall s, poll_ops s = [OpEnter s; OpExit s] /\ in_scope_ops s = [OpEnter s; OpExit s] /\
+  idrop_ops s = [OpEnter s; OpExit s; OpDrop s].
+Proof. intros s. repeat split; reflexivity. Qed.
+(** each poll of an instrumented future, at any point of any history without an install, emits the enter and the exit
+    record; dropping it emits enter, exit and close *)
+Theorem poll_emits : forall cfg before s after, accepting cfg ->
+  ~ In OpInstall (before ++ poll_ops s ++ idrop_ops s ++ after) ->
+  Forall2 step_spec (before ++ [OpEnter s; OpExit s] ++ [OpEnter s; OpExit s; OpDrop s] ++ after)
+          (snd (run cfg false (before ++ poll_ops s ++ idrop_ops s ++ after))).
+Proof.
+  intros cfg before s after Ha Hno. destruct (poll_ops_spec s) as (-> & _ & ->).
+  apply (reverse_before cfg _ Ha). destruct (poll_ops_spec s) as (E1 & _ & E3). rewrite E1, E3 in Hno. exact Hno.
+Qed.
+Example ex_poll : map (@List.length lrec) (snd (run ex_cfg false (poll_ops (mkSpan (Some ex_meta) None) ++ idrop_ops (mkSpan (Some ex_meta) None))))
+  = [1; 1; 1; 1; 1]%nat.
+Proof. reflexivity. Qed.
